@@ -45,13 +45,33 @@ def _returns(fn):
 
 def _writes_state(fn):
     """stores / mutating calls on self, its fields or module-level names inside a method body -> description or None"""
+    # (locals bound only to fresh containers - a display, list(...), a comprehension - are the method's own scratch data)
+    fresh = set()
+    for x in ast.walk(fn):
+        if isinstance(x, ast.Assign) and len(x.targets) == 1 and isinstance(x.targets[0], ast.Name):
+            v = x.value
+            is_fresh = isinstance(v, (ast.List, ast.Dict, ast.Set, ast.ListComp, ast.DictComp, ast.SetComp)) or \
+                (isinstance(v, ast.Call) and isinstance(v.func, ast.Name) and v.func.id in ("list", "dict", "set", "sorted", "tuple"))
+            (fresh.add if is_fresh else fresh.discard)(x.targets[0].id)
+    for x in ast.walk(fn):
+        if isinstance(x, ast.Assign) and len(x.targets) == 1 and isinstance(x.targets[0], ast.Name):
+            v = x.value
+            if not (isinstance(v, (ast.List, ast.Dict, ast.Set, ast.ListComp, ast.DictComp, ast.SetComp)) or
+                    (isinstance(v, ast.Call) and isinstance(v.func, ast.Name) and v.func.id in ("list", "dict", "set", "sorted", "tuple"))):
+                fresh.discard(x.targets[0].id)
+    params = set(a.arg for a in fn.args.args) if hasattr(fn, "args") else set()
+    fresh -= params
     for x in ast.walk(fn):
         if isinstance(x, (ast.Assign, ast.AugAssign)):
             tgts = x.targets if isinstance(x, ast.Assign) else [x.target]
             for t in tgts:
+                if isinstance(t, ast.Subscript) and isinstance(t.value, ast.Name) and t.value.id in fresh:
+                    continue
                 if isinstance(t, (ast.Attribute, ast.Subscript)):
                     return "`%s`" % dump(x)[:60]
         if isinstance(x, ast.Call) and isinstance(x.func, ast.Attribute) and x.func.attr in MUTATORS:
+            if isinstance(x.func.value, ast.Name) and x.func.value.id in fresh:
+                continue
             return "`%s`" % dump(x)[:60]
         if isinstance(x, ast.Delete):
             return "`%s`" % dump(x)[:60]
